@@ -104,7 +104,16 @@ fn run_model_accumulation(ctx: &mut Ctx, r: &mut Rng) {
         let target = gen_target(r, &out.dims);
         batches.push((input, target));
     }
-    let desc = format!("model-accumulation|{}|by-hand={} model-pairs={} by-hand-after={} doubled={:?} batches={:?}", spec.describe(), n_before, n_model, n_after, doubled, batches.iter().map(|b| b.0.dims.clone()).collect::<Vec<_>>());
+    // the Model pairs may all be scored against ONE target array (the same handle handed in again and again)
+    let share_target = n_model >= 2 && r.chance(1, 2) && (n_before..n_before + n_model).all(|k| batches[k].1.dims == batches[n_before].1.dims);
+    if share_target {
+        let t0 = batches[n_before].1.clone();
+        for k in n_before..n_before + n_model {
+            batches[k].1 = t0.clone();
+        }
+        ctx.count("model_pairs_sharing_one_target_array", 1);
+    }
+    let desc = format!("model-accumulation|{}|shared-target={}|by-hand={} model-pairs={} by-hand-after={} doubled={:?} batches={:?}", spec.describe(), share_target, n_before, n_model, n_after, doubled, batches.iter().map(|b| b.0.dims.clone()).collect::<Vec<_>>());
     ctx.case(&desc, total >= 2);
     ctx.sample("model-accumulation", || desc.clone());
     // reference: sum of the single-pass gradients
@@ -151,11 +160,13 @@ fn run_model_accumulation(ctx: &mut Ctx, r: &mut Rng) {
         {
             let refs: Vec<&mut dyn Layer> = layers.iter_mut().map(|s| s as &mut dyn Layer).collect();
             let mut model = Model::new(refs, &opt, &costf);
+            let shared = arr_t(&batches[k.min(batches.len() - 1)].1);
             for _ in 0..n_model {
                 let _ = model.forward(arr_t(&batches[k].0));
-                let _ = model.backward(arr_t(&batches[k].1));
+                let tgt = |k: usize| if share_target { shared.clone() } else { arr_t(&batches[k].1) };
+                let _ = model.backward(tgt(k));
                 if doubled[k] {
-                    let _ = model.backward(arr_t(&batches[k].1));
+                    let _ = model.backward(tgt(k));
                 }
                 k += 1;
             }
